@@ -43,6 +43,52 @@ def number_token(rng):
     return ("%.17g" % struct.unpack("<d", struct.pack("<Q", rng.next()))[0]).encode().replace(b"nan", b"1").replace(b"inf", b"2")
 
 
+SEP_FIXED = [b"0", b"10", b"1000000", b"0.5", b"0.05", b"0.000001", b"-0.0005e1", b"00.001", b"000123", b".001", b"-.05", b"1.0", b"100.001", b"1e5", b"1.5e-3",
+             b"0x10", b"0xff.8", b"0x0.08", b"0x0.0001p16", b"-0x0.08p0", b"0x00ff", b"2r101", b"2r0.01", b"2r0.001&11", b"16r0.08", b"36rzz", b"16r1F&3",
+             b"1:s", b"1000:u", b"0x10:s", b"-12:s", b"255:n", b"0.25:n", b"123456789012345678901234567890", b"9007199254740993", b"4.9e-324"]
+
+
+def sep_literal(rng):
+    """a numeric literal WITHOUT digit separators; mix of the generator's number tokens and fractions with zeros in front of the first
+    significant digit (before and after the radix point) in the three base notations"""
+    k = rng.below(4)
+    if k == 0:
+        return rng.choice(SEP_FIXED)
+    if k == 1:
+        t = number_token(rng)
+        return t.replace(b"_", b"")
+    base = rng.choice([10, 10, 16, 2, 8, 36])
+    digs = "0123456789abcdefghijklmnopqrstuvwxyz"[:base]
+    if base == 10:
+        pre = ""
+    elif base == 16 and rng.chance(1, 2):
+        pre = "0x"
+    else:
+        pre = "%dr" % base
+        if base == 10:
+            pre = ""
+    body = "0" * rng.range(0, 3) + rng.choice(["", "", digs[1:][rng.below(base - 1)]]) + "." + "0" * rng.range(0, 4) + \
+        "".join(digs[rng.below(base)] for _ in range(rng.range(1, 4)))
+    if body.startswith("."):
+        body = rng.choice(["", "0"]) + body
+    ex = ""
+    if rng.chance(1, 3):
+        if base == 10:
+            ex = "e%d" % rng.range(-9, 9)
+        elif pre == "0x":
+            ex = "p%d" % rng.range(-9, 9)
+        elif "e" not in digs:
+            ex = "&%s" % digs[rng.below(base)]
+    return (rng.choice(["", "", "-", "+"]) + pre + body + ex).encode()
+
+
+def sep_variants(lit):
+    """the literal with one `_` inserted at every position (also in front and at the end), and with `_` after every character"""
+    out = [lit[:i] + b"_" + lit[i:] for i in range(0, len(lit) + 1)]
+    out.append(b"".join(bytes([c]) + b"_" for c in lit))
+    return out
+
+
 def symbol_token(rng):
     n = rng.range(0, 6)
     s = bytes([rng.choice(SYMSTART)]) + bytes(rng.choice(SYMCH) for _ in range(n))
